@@ -282,9 +282,10 @@ class HyperRAMInterface(Elaboratable):
                 ]
                 m.d.comb += self.write_ready.eq(1),
 
-                # If we just finished a register write, we're done -- there's no need for recovery.
+                # If we just finished a register write, we're done. We still pass through RECOVERY, which
+                # releases CS; otherwise a request in our first idle cycle would continue under the same CS.
                 with m.If(is_register):
-                    m.next = 'IDLE'
+                    m.next = 'RECOVERY'
 
                 with m.Elif(self.final_word):
                     m.next = 'RECOVERY'
